@@ -390,6 +390,12 @@ class Interp:
                 c = False
         if not is_sym(c):
             return self.ev(e.body if self.truth(c) else e.orelse, env)
+        # a condition already decided by the path condition (e.g. the kind of a substance fixed by the case)
+        t, f = self.feasible(c), self.feasible(z3.Not(c))
+        if t and not f:
+            return self.ev(e.body, env)
+        if f and not t:
+            return self.ev(e.orelse, env)
         # symbolic condition: both arms pure constants/strings/numbers -> merged value, else fork
         if self._simple_arm(e.body) and self._simple_arm(e.orelse):
             a = self.ev(e.body, env)
